@@ -96,14 +96,28 @@ type c16World struct {
 	models []*c16Model
 	log    *[]string
 	nextID int
+	paths  map[int]string // IssuePath of the struct-level tests declared through mkTest
+}
+
+// c16TestPath: struct-level tests are cross-field tests; three in four file their issue under a field's name
+// (IssuePath), whether or not a derived schema still has that field.
+func c16TestPath(id int) string {
+	paths := []string{"", "a", "b", "c"}
+	return paths[(id/2)%4]
 }
 
 func (w *c16World) mkTest(id int) z.Test {
 	log := w.log
-	return z.TestFunc(fmt.Sprintf("t%d", id), func(v any, ctx z.Ctx) bool {
+	t := z.TestFunc(fmt.Sprintf("t%d", id), func(v any, ctx z.Ctx) bool {
 		*log = append(*log, fmt.Sprintf("t%d", id))
 		return id%2 == 0
 	})
+	t.IssuePath = c16TestPath(id)
+	if w.paths == nil {
+		w.paths = map[int]string{}
+	}
+	w.paths[id] = t.IssuePath
+	return t
 }
 
 func (w *c16World) mkPost(id int) z.PostTransform {
@@ -132,7 +146,11 @@ func (w *c16World) probe(i int, failing string) (string, string) {
 	for _, t := range m.tests {
 		wantLog = append(wantLog, fmt.Sprintf("t%d", t))
 		if t%2 != 0 {
-			wantIssues = append(wantIssues, fmt.Sprintf("$root|t%d", t))
+			key := w.paths[t] // only tests declared through mkTest carry an IssuePath
+			if key == "" {
+				key = "$root"
+			}
+			wantIssues = append(wantIssues, fmt.Sprintf("%s|t%d", key, t))
 		}
 	}
 	if len(wantIssues) == 0 {
